@@ -49,6 +49,7 @@ def _flags(fi, fm, fs, fx, fa):
             tags={2: 'string, native type', 3: 'string, other type (bytes mode accepts ASCII text)',
                   4: 'compiled, native type (passed through)', 5: 'compiled, other type (re-compiled with its flags)'},
             timeout=400, split=('form', 'unicode_mode'),
+            thorough=dict(params=dict(t=Text(5, min=1, maxch=128)), timeout=1500, split=('form', 'unicode_mode', 'ign')),
             note='every accepted form of one pattern reaches the searcher as (native text, effective flags); a single '
                  'pattern equals a one-element list; expect() and compile_pattern_list()+expect_list() agree')
 def F1_forms(t, unicode_mode, form, ign, fi, fm, fs, fx, fa, single, via_list):
@@ -148,7 +149,7 @@ def F2_rejected(unicode_mode, bad, entry, pos, P0):
 
 @obligation(params=dict(t=Text(3, min=1, maxch=128), unicode_mode=Bool(), astext=Bool(), single=Bool(), k=Int(0, 2)),
             tags={2: 'exact string, native', 3: 'exact string, ASCII text in bytes mode', 4: 'EOF/TIMEOUT alone'},
-            timeout=300,
+            timeout=300, thorough=dict(params=dict(t=Text(5, min=1, maxch=128)), timeout=900),
             note='expect_exact: strings reach searcher_string in the native type (ASCII text encoded in bytes mode); '
                  'a single string/EOF/TIMEOUT equals a one-element list')
 def F3_exact_forms(t, unicode_mode, astext, single, k):
